@@ -95,18 +95,25 @@ def run(tier, seed):
 
     acc = kernel.pmap(shard_fn, kernel.interleave(alpha, kernel.NPROC * 4))
     # a few other sizes incl. the empty circuit and single-mode circuits
-    extra = kernel.Acc()
+    import math
+    xjobs = []
     for nn in (1, 2, 6):
         a = [op for op in rich_alphabet(max(nn, 3), env) if op[0] in ("bs", "ps", "loss", "bar", "psP", "lossP", "sw", "her")]
-        check_circuit(nn, (), env, extra, 1)
-        for op in a:
-            check_circuit(nn, (op,), env, extra, 1)
+        xjobs.append((nn, ()))
+        xjobs += [(nn, (op,)) for op in a]
     # every branch of the phase label: multiples of pi/4 of either sign up to 13 pi/4, their neighbours, plain / Parameter
-    import math
     phis = [k * math.pi / 4 for k in range(-13, 14)] + [math.pi + 1e-9, 2 * math.pi - 1e-7, 1e-12, env.PH[2], -env.PH[1], 100.0]
     for phi in phis:
         for op in (("ps", 0, phi, 0), ("psP", 1, False, phi), ("psP", 0, True, phi), ("ps", 1, phi, env.L2)):
-            check_circuit(2, (op,), env, extra, 1)
+            xjobs.append((2, (op,)))
+
+    def xshard(js):
+        a = kernel.Acc()
+        for nn, prog in js:
+            check_circuit(nn, prog, env, a, 1)
+        return a
+
+    extra = kernel.pmap(xshard, kernel.interleave(xjobs, kernel.NPROC))
     acc.merge(extra)
     meta = {
         "rule": "every program of length <= depth over the rich alphabet at n=4 (plus sizes 1, 2, 6 and the empty circuit; plus a "
